@@ -228,6 +228,11 @@ impl Scenario for C17 {
             spec.seed = Some(gen_seed(rng, ck.rng_kind()));
             spec.seed2 = Some(gen_seed(rng, ck.rng_kind()));
             spec.pre = rng.below(4) as u32;
+            // aux[0]: what the owners' results buffers hold when generate() is called (the same for both twins:
+            // the contents of an out-parameter on entry are public): 0 = what the previous call left there,
+            // 1 = the block the FIRST twin is about to produce (taken from a clone of it), 2 = the block the
+            // second twin is about to produce, 3 = zeros, 4 = all ones
+            spec.aux = vec![rng.below(5)];
             return spec;
         }
         if rng.chance(1, if _tier == Tier::Quick { 625 } else { 6_250 }) {
@@ -316,7 +321,7 @@ impl Scenario for C17 {
         }
     }
     fn rule(&self) -> String {
-        "Each run: twin generators of one state-hiding type (XorShiftRng, Hc128Rng, IsaacRng, Isaac64Rng, JitterRng; or the cores Hc128Core, IsaacCore, Isaac64Core) with DIFFERENT secrets (seed through any route; for JitterRng a different clock script) and the SAME public history (pre-advance, next_u32/next_u64/fill_bytes ops, so the same read position). After construction and after every operation {:?} and {:#?} of both must be byte-equal, and no decimal or hexadecimal token of the text may equal a state word (bincode image where available), a buffered/next output word (a clone's next two blocks) or a just-returned value >= 100000. distinct_nontrivial = distinct (type, buffer index, op kind) signatures at which the texts were compared. Histories also contain non-output operations applied to both twins (timer_stats, set_rounds incl. the contained set_rounds(0), test_timer, clone, snapshot/restore, ==). Texts are produced under every formatter flag ({:x?}, {:#X?}, {:+?}, width/precision/padding), and in one run out of three additionally while the thread unwinds from a harness-raised panic or on another thread. Extra passes: a build with --cfg fuzzing; a pass in which every ALL_CAPS token found in the compiled crates is set as an environment variable.".into()
+        "Each run: twin generators of one state-hiding type (XorShiftRng, Hc128Rng, IsaacRng, Isaac64Rng, JitterRng; or the cores Hc128Core, IsaacCore, Isaac64Core) with DIFFERENT secrets (seed through any route; for JitterRng a different clock script) and the SAME public history (pre-advance, next_u32/next_u64/fill_bytes ops, so the same read position). After construction and after every operation {:?} and {:#?} of both must be byte-equal, and no decimal or hexadecimal token of the text may equal a state word (bincode image where available), a buffered/next output word (a clone's next two blocks) or a just-returned value >= 100000. distinct_nontrivial = distinct (type, buffer index, op kind) signatures at which the texts were compared. Histories also contain non-output operations applied to both twins (timer_stats, set_rounds incl. the contained set_rounds(0), test_timer, clone, snapshot/restore, ==). Texts are produced under every formatter flag ({:x?}, {:#X?}, {:+?}, width/precision/padding), and in one run out of three additionally while the thread unwinds from a harness-raised panic or on another thread. Extra passes: a build with --cfg fuzzing; a pass in which every ALL_CAPS token found in the compiled crates is set as an environment variable. Core runs: before each generate() both owners' results buffers are primed with the same public content (what the previous call left, the block the first or the second twin is about to produce - taken from a clone -, zeros, all ones).".into()
     }
     fn assumptions(&self) -> Vec<String> {
         vec!["words below 100000 are not searched for (chance hits on index / result_len)".into()]
@@ -481,7 +486,7 @@ impl C17 {
         };
         let mut a = mk(spec.seed.as_ref().unwrap())?;
         let mut b = mk(spec.seed2.as_ref().unwrap())?;
-        for i in 0..=spec.pre {
+        for i in 0..=spec.pre + 1 {
             let da = sut(guard(|| a.debug()), "debug")?;
             let db = sut(guard(|| b.debug()), "debug")?;
             st.log.str(&da.0);
@@ -510,8 +515,34 @@ impl C17 {
             let (wa, wb) = (a.wrap(), b.wrap());
             let (ta, tb) = (texts_in_ctx(wa.as_ref(), spec.ctx, st)?, texts_in_ctx(wb.as_ref(), spec.ctx, st)?);
             check_texts(ck.name(), &ta, &tb, &sa, &sb, &format!("wrapped in BlockRng after {} generate() calls", i))?;
-            sut(guard(|| a.generate()), "generate")?;
-            sut(guard(|| b.generate()), "generate")?;
+            if i == spec.pre + 1 {
+                // (the texts after the last generate() have been compared)
+                break;
+            }
+            let prime: Option<Vec<u64>> = match spec.aux.first().copied().unwrap_or(0) {
+                1 => {
+                    let mut c = a.boxed_clone();
+                    Some(sut(guard(|| c.generate()), "generate")?)
+                }
+                2 => {
+                    let mut c = b.boxed_clone();
+                    Some(sut(guard(|| c.generate()), "generate")?)
+                }
+                3 => Some(vec![0]),
+                4 => Some(vec![u64::MAX]),
+                _ => None,
+            };
+            match prime {
+                Some(x) => {
+                    st.count("probe:core_generate_into_primed_buffer");
+                    sut(guard(|| a.generate_primed(&x)), "generate")?;
+                    sut(guard(|| b.generate_primed(&x)), "generate")?;
+                }
+                None => {
+                    sut(guard(|| a.generate()), "generate")?;
+                    sut(guard(|| b.generate()), "generate")?;
+                }
+            }
         }
         Ok(())
     }
